@@ -15,6 +15,7 @@ type reObj struct {
 	re      *regexp.Regexp // concrete compiled
 	pattern StrV           // source pattern (possibly symbolic)
 	id      int
+	fixed   *reFixed // fixed-width class model (symbolic literal bytes), see regexp_match.go
 }
 
 func (w *Worker) newRegexp(st *State, r *reObj) PtrV {
